@@ -25,6 +25,9 @@ class C03(ProgProp):
         many = "".join("v%d = %d\n" % (i, 1000 + i) for i in range(300)) + "def f():\n    return v299, v0\n"
         for v in self.versions:
             yield {"k": "prog", "v": v, "src": many}
+        big = "x = '%s'\ny = b'%s'\n" % ("a" * 1500000, "b" * 1100000)
+        for v in ("2.7", "3.8", "3.11"):
+            yield {"k": "prog", "v": v, "src": big if v != "2.7" else big.replace("b'", "'")}
         from vf.props import c09
         for name in sorted(c09.tables(rw.xd())):
             yield {"k": "family", "table": name}
